@@ -486,9 +486,12 @@ std::string fgets(FILE* f) {
         throw io_error(fileno(f), "cannot read from stream");
       }
     }
+    // ::fgets stores at most size - 1 characters followed by a NUL, so a full
+    // block holds 0xFF characters; the line continues in the next block unless
+    // the last of them is the newline
     size_t block_bytes = strlen(block.c_str());
-    if ((block_bytes < 0x100) || (block[0xFF] == '\n')) {
-      block.resize(block_bytes);
+    block.resize(block_bytes);
+    if ((block_bytes < 0xFF) || (block[0xFE] == '\n')) {
       break; // The line ends at the end of this block
     }
   }
